@@ -364,4 +364,104 @@ theorem padAll_ok (n : Int) (hn : 0 ≤ n) : ∀ (specs : List (String × Int ×
           rw [this]
           exact (vals_valid h a l hl').2
 
+/-! ### the whole constructor -/
+
+theorem get?_merge_not_mem : ∀ (b a : Dict String Arr) (k : String), k ∉ b.map (·.1) → Dict.get? (dictMerge a b) k = Dict.get? a k
+  | [], _, _, _ => rfl
+  | p :: t, a, k, hk => by
+    simp only [List.map_cons, List.mem_cons, not_or] at hk
+    have := get?_merge_not_mem t (Dict.set a p.1 p.2) k hk.2
+    simp only [dictMerge, List.foldl_cons] at this ⊢
+    rw [this, Py.Dict.get?_set, if_neg hk.1]
+
+theorem get?_merge_mem : ∀ (b a : Dict String Arr) (k : String), (b.map (·.1)).Nodup → k ∈ b.map (·.1) →
+    Dict.get? (dictMerge a b) k = Dict.get? b k
+  | [], _, _, _, hk => absurd hk (by simp)
+  | p :: t, a, k, hnd, hk => by
+    simp only [List.map_cons, List.nodup_cons] at hnd
+    simp only [List.map_cons, List.mem_cons] at hk
+    rw [Py.Dict.get?_cons]
+    by_cases c : p.1 = k
+    · rw [if_pos c]
+      have := get?_merge_not_mem t (Dict.set a p.1 p.2) k (c ▸ hnd.1)
+      simp only [dictMerge, List.foldl_cons] at this ⊢
+      rw [this, Py.Dict.get?_set, if_pos c.symm]
+    · rw [if_neg c]
+      have hk' : k ∈ t.map (·.1) := by
+        rcases hk with e | e
+        · exact absurd e.symm c
+        · exact e
+      have := get?_merge_mem t (Dict.set a p.1 p.2) k hnd.2 hk'
+      simp only [dictMerge, List.foldl_cons] at this ⊢
+      exact this
+
+theorem merge_keys : ∀ (b a : Dict String Arr), (b.map (·.1)).Nodup → (∀ k ∈ b.map (·.1), k ∉ a.map (·.1)) →
+    (dictMerge a b).map (·.1) = a.map (·.1) ++ b.map (·.1)
+  | [], a, _, _ => by simp [dictMerge]
+  | p :: t, a, hnd, hdis => by
+    simp only [List.map_cons, List.nodup_cons] at hnd
+    have hp : p.1 ∉ a.map (·.1) := hdis p.1 (by simp)
+    have ih := merge_keys t (Dict.set a p.1 p.2) hnd.2 (by
+      intro k hk
+      rw [set_fresh a p.1 p.2 hp]
+      simp only [List.map_append, List.map_cons, List.map_nil, List.mem_append, List.mem_singleton, not_or]
+      exact ⟨hdis k (by simp [hk]), fun c => hnd.1 (c ▸ hk)⟩)
+    simp only [dictMerge, List.foldl_cons] at ih ⊢
+    rw [ih, set_fresh a p.1 p.2 hp]; simp
+
+theorem get?_filter_pred (f : String → Bool) (k : String) (hf : f k = true) : ∀ (d : Dict String Arr),
+    Dict.get? (d.filter (fun p => f p.1)) k = Dict.get? d k
+  | [] => rfl
+  | p :: t => by
+    by_cases c : p.1 = k
+    · have : f p.1 = true := c ▸ hf
+      simp [List.filter_cons, this, hf, Py.Dict.get?_cons, c]
+    · by_cases c2 : f p.1 = true
+      · simp [List.filter_cons, c2, Py.Dict.get?_cons, c, get?_filter_pred f k hf t]
+      · simp [List.filter_cons, c2, Py.Dict.get?_cons, c, get?_filter_pred f k hf t]
+
+/-- the heap and the keyword dict after the two defaults (`id = arange(0, n)`, `pid = arange(-1, n - 1)` when missing) -/
+def defaults (h : Bufs) (n : Int) (kw : Dict String Arr) : Bufs × Dict String Arr :=
+  withDefault (withDefault h kw "id" 0 n).1 (withDefault h kw "id" 0 n).2 "pid" (-1) (n - 1)
+
+/-- when both `id` and `pid` are handed in (every tree built from a table or from another tree) nothing happens here -/
+theorem defaults_given (h : Bufs) (n : Int) (kw : Dict String Arr) (h1 : Dict.contains kw "id" = true) (h2 : Dict.contains kw "pid" = true) :
+    defaults h n kw = (h, kw) := by
+  simp [defaults, withDefault, h1, h2]
+
+/-- **`Tree.__init__` as translated** (every heap, every `n ≥ 0`, every dict of valid arrays with distinct keys), stated on the heap / dict
+`(h₂, kw₂) = defaults h n kw` (= `(h, kw)` when `id` and `pid` are given): it succeeds; NO existing buffer is written (`hF = h₂ ++ ext`); the
+first seven columns of the new `ndata` are `id, type, x, y, z, r, pid` with the dtypes int32 / float32, length `n` and the values `colVals`
+(what was given, cut or padded — with 1 for `r`, 0 otherwise; zeros when nothing was given); a standard column SHARES STORAGE with a buffer that
+existed before exactly when an array of the right dtype and at least `n` long was handed in, and is then the view `a[:n]` of it; every other
+column handed in is stored as it is (the same array object). -/
+theorem tree_init_ok (h : Bufs) (n : Int) (kw : Dict String Arr) (hn : 0 ≤ n)
+    (hv : AllValid (defaults h n kw).1 (defaults h n kw).2) (hnd : ((defaults h n kw).2.map (·.1)).Nodup) :
+    ∃ hF nd, tree_init h n kw = some (hF, nd, ()) ∧ (∃ ext, hF = (defaults h n kw).1 ++ ext) ∧
+      nd.map (·.1) = STD.map (·.1) ++ ((defaults h n kw).2.filter fun p => decide (p.1 ∉ STD.map (·.1))).map (·.1) ∧
+      (∀ s ∈ STD, ∃ r, Dict.get? nd s.1 = some r ∧
+        ColOk (defaults h n kw).1 hF n (Dict.get? (defaults h n kw).2 s.1) s.2.1 s.2.2 r) ∧
+      (∀ k, k ∉ STD.map (·.1) → Dict.get? nd k = Dict.get? (defaults h n kw).2 k) := by
+  obtain ⟨hF, accF, hpa, hfr, hkeys, hget, hcols⟩ :=
+    padAll_ok n hn STD (defaults h n kw).1 (defaults h n kw).2 [] (by decide) hv (by simp)
+  have hrest_nd : (((defaults h n kw).2.filter fun p => decide (p.1 ∉ STD.map (·.1))).map (·.1)).Nodup :=
+    (List.filter_sublist.map _).nodup hnd
+  have hrest_not : ∀ k ∈ STD.map (·.1), k ∉ ((defaults h n kw).2.filter fun p => decide (p.1 ∉ STD.map (·.1))).map (·.1) := by
+    intro k hk hm
+    obtain ⟨p, hp, rfl⟩ := List.mem_map.1 hm
+    have := (List.mem_filter.1 hp).2
+    simp only [decide_eq_true_eq] at this
+    exact this hk
+  refine ⟨hF, dictMerge accF ((defaults h n kw).2.filter fun p => decide (p.1 ∉ STD.map (·.1))), ?_, hfr, ?_, ?_, ?_⟩
+  · rw [tree_init_eq]; simp only [defaults] at hpa ⊢; rw [hpa]; rfl
+  · rw [merge_keys _ _ hrest_nd (by rw [hkeys]; intro k hk hm; exact hrest_not k (by simpa using hm) hk), hkeys]; simp
+  · intro s hs
+    obtain ⟨r, hr, c⟩ := hcols s hs
+    exact ⟨r, by rw [get?_merge_not_mem _ _ _ (hrest_not s.1 (List.mem_map_of_mem hs))]; exact hr, c⟩
+  · intro k hk
+    have hfk := get?_filter_pred (fun q => decide (q ∉ STD.map (·.1))) k (by simpa using hk) (defaults h n kw).2
+    by_cases hm : k ∈ ((defaults h n kw).2.filter fun p => decide (p.1 ∉ STD.map (·.1))).map (·.1)
+    · rw [get?_merge_mem _ _ _ hrest_nd hm]; exact hfk
+    · rw [get?_merge_not_mem _ _ _ hm, hget k hk, ← hfk, Py.Dict.get?_none_of_not_mem _ k hm]; rfl
+
 end RefineCtorInit
